@@ -19,6 +19,24 @@ CLAIMS = {
        "no zero-length segment, end points on straddling edges.",
   design_ref="DESIGN.md section 6 C08", technique="TLC exhaustive world enumeration + replay into real renderers + TLC trace validation of real segments",
   note=TB + " Circle/perimeter convergence clauses are measured numerics (see DESIGN section 10)."),
+ "C06": dict(
+  text="Lattice3Scan.tla model-checks the uniform renderer's layer cache, batch offsets and corner pairing; UniformM.tla "
+       "draws exact integer scenes (boxes cut by arbitrary small-integer planes, unions, differences) on non-cubic lattices "
+       "with layers larger than one evaluation batch; each is rendered by the real uniform renderer and UniTrace.tla judges "
+       "with exact rationals that every vertex is the linear zero crossing of a straddling lattice edge, every strictly "
+       "straddling edge carries a vertex and nothing leaves the padded box. The accuracy clauses (plane, sphere bound, one "
+       "cell diagonal both ways, normals, second-order volume convergence) are measured on analytic shapes through both "
+       "renderers and judged by MeasureTrace.tla.",
+  design_ref="DESIGN.md section 6 C06 and section 10", technique="TLC model of the scan data flow + exact-lattice scene replay + TLC trace validation; measured numerics judged by a TLC trace spec",
+  note=TB + " The measured clauses are seeded samples judged (not computed) by TLC."),
+ "C07": dict(
+  text="Octree.tla / Quadtree.tla model the hierarchical traversal (emptiness test, child order, leaf marching) on an exact "
+       "lattice; TLC checks NoEmittingCellSkipped for all single L-infinity boxes and LCG-drawn two-box and diagonal-plane "
+       "scenes (gradient 0.99: the tight case of the half-diagonal test). Every scene is rendered by the real octree and "
+       "quadtree renderers for f and for f/1024 (nothing prunable); OctTrace/QuadTrace judge hierarchical = exhaustive output "
+       "= flat-scan model, and compare the hook-recorded isEmpty decisions with the model traversal (drift only).",
+  design_ref="DESIGN.md section 6 C07", technique="TLC model checking of the traversal + replay into the real renderers + TLC trace validation (metamorphic and model-based)",
+  note=TB + " Scenes are 1-Lipschitz by construction; 'all shapes' is the stated lattice families."),
 }
 
 NOT_APPLICABLE = {}
